@@ -81,6 +81,24 @@ Theorem C15_extract_same_strings : forall m ops n s,
 Proof. exact extract_same_strings. Qed.
 Print Assumptions C15_extract_same_strings.
 
+(* ---- the constants of distinct operations are distinct [full]: const_name is injective on snake forms, and operations
+        with equal snake forms have equal method / module names, which the generator refuses (duplicated file names).
+        This discharges the `NoDup (map const_name …)` hypothesis of C15_extract_same_strings / C15_request_unchanged
+        from the distinctness of method names ---- *)
+Theorem C15_const_name_injective : forall a b, const_name a = const_name b -> snake (s2l a) = snake (s2l b).
+Proof. exact const_name_injective. Qed.
+Print Assumptions C15_const_name_injective.
+
+Theorem C15_const_names_distinct : forall names,
+  NoDup (map (fun n => snake (s2l n)) names) -> NoDup (map const_name names).
+Proof. exact const_names_nodup. Qed.
+Print Assumptions C15_const_names_distinct.
+
+Example C15_const_name_collision_candidates :
+  map const_name ["userDetails"; "userDetailsGql"; "item"; "itemGql"; "itemGqlGql"; "Gql"]
+  = ["USER_DETAILS_GQL"; "USER_DETAILS_GQL_GQL"; "ITEM_GQL"; "ITEM_GQL_GQL"; "ITEM_GQL_GQL_GQL"; "GQL_GQL"].
+Proof. vm_compute. reflexivity. Qed.
+
 (* ---- no plugin touches variables, operationName or the document [full per plugin; ExtractOperations on the
         body shape the generator emits (std_body), resolved through the constants table] ---- *)
 Theorem C15_request_unchanged_shorter : forall st m st' m' C,
@@ -144,8 +162,8 @@ Print Assumptions C15_forward_refs_sources_dotted.
 (* ---- ClientForwardRefs keeps every EVALUATED name bound [full; hypothesis: subscript heads are not package imports,
         checked by the tie on every generated client]: names and heads the `def` statements evaluate keep their
         global import, the validated class keeps it or gets the import placed in the method ---- *)
-Theorem C15_forward_refs_bound : forall c c',
-  fr_client c = Some c' ->
+Theorem C15_forward_refs_bound : forall se c c',
+  fr_client se c = Some c' ->
   (forall m h, In m (cm_methods c) -> In h (sig_heads m) -> lookup h (fr_imported (cm_imports c)) = None) ->
   forall m', In m' (cm_methods c') ->
   exists m, In m (cm_methods c) /\
@@ -233,7 +251,7 @@ Definition consts (p : option package) : list (string * string) :=
 (* all four (+ identity) together: the hypotheses of the theorems above are met by a real run of the pipeline,
    the request is the unplugged one, the value is the projection, the import is deferred to the right module *)
 Example C15_all_plugins_example :
-  let p := generate [S0; E0; PIdentity; PForward; PNoReimports] mini in
+  let p := generate [S0; E0; PIdentity; PForward false; PNoReimports] mini in
   option_map (request_of (consts p)) (first_method p) = Some (request_of [] mini_method) /\
   option_map result_expr (first_method p) = Some (Some (RAttr (RValidate "GetMe") "me")) /\
   option_map m_returns (first_method p) = Some (Some (ASub "Optional" [AConst "GetMeMe"])) /\
@@ -245,7 +263,7 @@ Proof. vm_compute. repeat split. Qed.
 
 (* the hypotheses of C15_request_unchanged are met by that run *)
 Example C15_request_unchanged_hypotheses :
-  let ps := [S0; E0; PIdentity; PForward; PNoReimports] in
+  let ps := [S0; E0; PIdentity; PForward false; PNoReimports] in
   List.length (estates ps) = 1 /\ init_ok ps /\
   Forall (fun o => std_body (uo_method o) = true) (u_ops mini) /\
   NoDup (map const_name (map uo_name (u_ops mini))) /\
@@ -263,7 +281,7 @@ Qed.
    GetMe` — one dot — and TYPE_CHECKING is imported from the absolute module `typing` (level 0), both in the
    method body and in the TYPE_CHECKING block *)
 Example C15_forward_refs_regression_F24 :
-  let p := generate [PForward] mini in
+  let p := generate [PForward false] mini in
   option_map (fun m => hd_error (m_body m)) (first_method p) = Some (Some (SImport 1 "get_me" "GetMe")) /\
   src_of 1 "get_me" = ".get_me" /\
   option_map (fun pk => existsb (fun i => Nat.eqb (i_level i) 0 && String.eqb (i_module i) "typing"
@@ -278,8 +296,8 @@ Proof. vm_compute. repeat split. Qed.
 (* order matters (documented model behaviour, not a defect): after ClientForwardRefs the return annotation is a
    string constant, so a ShorterResults placed later leaves every method alone *)
 Example C15_order_dependence :
-  option_map result_expr (first_method (generate [PForward; S0] mini)) = Some (Some (RValidate "GetMe")) /\
-  option_map result_expr (first_method (generate [S0; PForward] mini)) = Some (Some (RAttr (RValidate "GetMe") "me")).
+  option_map result_expr (first_method (generate [PForward false; S0] mini)) = Some (Some (RValidate "GetMe")) /\
+  option_map result_expr (first_method (generate [S0; PForward false] mini)) = Some (Some (RAttr (RValidate "GetMe") "me")).
 Proof. vm_compute. split; reflexivity. Qed.
 
 (* ShorterResults counts a field selected both directly and through a fragment twice: the result object has ONE
@@ -308,8 +326,8 @@ Definition custom_ops_client : cmodule :=
                        m_body := [SOther "response = await self.execute(...)";
                                   SReturn (RCallOn "self" "self.get_data(response)")] |}] |}.
 Example C15_forward_refs_regression_custom_operations :
-  option_map cm_methods (fr_client custom_ops_client) = Some (cm_methods custom_ops_client) /\
-  option_map (fun c => map (fun i => src_of (i_level i) (i_module i)) (cm_imports c)) (fr_client custom_ops_client)
+  option_map cm_methods (fr_client false custom_ops_client) = Some (cm_methods custom_ops_client) /\
+  option_map (fun c => map (fun i => src_of (i_level i) (i_module i)) (cm_imports c)) (fr_client false custom_ops_client)
     = Some ["typing"; ".async_base_client"; ".input_types"; ".get_me"].
 Proof. vm_compute. split; reflexivity. Qed.
 
@@ -318,5 +336,29 @@ Example C15_forward_refs_bound_hypothesis :
   let c := with_imports_methods (u_client mini) (cm_imports (u_client mini)) [mini_method] in
   forallb (fun m => forallb (fun h => match lookup h (fr_imported (cm_imports c)) with None => true | Some _ => false end)
                             (sig_heads m)) (cm_methods c) = true /\
-  sig_heads mini_method = ["Optional"] /\ fr_client c <> None.
+  sig_heads mini_method = ["Optional"] /\ fr_client false c <> None.
 Proof. vm_compute. repeat split. discriminate. Qed.
+
+(* finding C15-forward-refs-empty-type-checking-block (open): ShorterResults turns every return annotation into a
+   builtin (`int`), ClientForwardRefs then has no name to put under TYPE_CHECKING but still emits the block — the
+   module cannot be formatted and generation fails.  Witness: one operation `query item { item }` on `item: Int`. *)
+Definition scalar_only : upackage :=
+  {| u_ops := [{| uo_name := "item"; uo_kind := KQuery; uo_str := "query item { item }";
+                  uo_classes := [{| c_name := "Item"; c_bases := ["BaseModel"]; c_fields := [("item", ASub "Optional" [AName "int"])] |}];
+                  uo_imports := [{| i_level := 0; i_module := "typing"; i_names := ["Optional"] |}];
+                  uo_method := {| m_name := "item"; m_async := true; m_params := []; m_tail := "**kwargs: Any";
+                                  m_returns := Some (AName "Item");
+                                  m_body := [SQuery "query" "query item { item }"; SVars "variables = {}";
+                                             SExec (QVar "query") "item" "response = await self.execute(..)";
+                                             SData "data = self.get_data(response)"; SReturn (RValidate "Item")] |} |}];
+     u_fragment_classes := [];
+     u_client := {| cm_imports := [{| i_level := 0; i_module := "typing"; i_names := ["Any"; "Optional"] |};
+                                   {| i_level := 1; i_module := "async_base_client"; i_names := ["AsyncBaseClient"] |};
+                                   {| i_level := 1; i_module := "item"; i_names := ["Item"] |}];
+                    cm_tc := []; cm_class := "Client"; cm_bases := ["AsyncBaseClient"]; cm_methods := [] |};
+     u_init := {| in_imports := []; in_all := [] |} |}.
+Theorem C15_forward_refs_empty_block_refuted :
+  generate [S0; PForward false] scalar_only = None /\
+  generate [PForward false] scalar_only <> None /\ generate [S0] scalar_only <> None /\
+  option_map (fun p => cm_tc (pk_client p)) (generate [S0; PForward true] scalar_only) = Some [].
+Proof. vm_compute. repeat split; discriminate. Qed.
